@@ -219,6 +219,8 @@ class Opaque(object):
             return Opaque('matmul', a=self, b=k)
         if isinstance(k, (int, P, Fraction)):
             return Opaque('scale', k=k, of=self)
+        if hasattr(k, 'sym_load'):
+            return Opaque('matmul', a=self, b=k)
         return NotImplemented
     __rmul__ = __mul__
 
@@ -833,7 +835,9 @@ class Interp(object):
             new = self.binop(s.op, cur, rhs, s, fr)
             if hasattr(new, 'oid'):
                 new.oid = cur.oid
-            self.path.log.append(('mutate', cur.oid, s.lineno))
+                if getattr(cur, 'maybe_held', False):
+                    new.maybe_held = True
+            self.path.log.append(('mutate', cur.oid, s.lineno, bool(getattr(cur, 'maybe_held', False))))
         else:
             new = self.binop(s.op, cur, rhs, s, fr)
         self.assign(t, new, fr)
@@ -1095,6 +1099,8 @@ class Interp(object):
         if isinstance(o, np.ndarray):
             if name in ('shape', 'ndim', 'size', 'T'):
                 return getattr(o, name)
+            if name == 'dot':
+                return lambda other: other.sym_rdot(self, o) if hasattr(other, 'sym_rdot') else o.dot(other)
             if name in ('ravel', 'copy', 'reshape', 'flatten', 'astype', 'sum', 'transpose', 'min', 'max', 'dot', 'tolist'):
                 fn = getattr(o, name)
                 if name == 'astype':
@@ -1264,9 +1270,14 @@ class Interp(object):
     def cmp1(self, op, a, b, node):
         name = op.__class__.__name__
         if name == 'Is':
+            if hasattr(a, 'isnone') and b is None:
+                return a.isnone
+            if hasattr(b, 'isnone') and a is None:
+                return b.isnone
             return a is b or (isinstance(a, (int, str, bool)) and isinstance(b, (int, str, bool)) and type(a) == type(b) and a == b and not isinstance(a, str))
         if name == 'IsNot':
-            return not self.cmp1(ast.Is(), a, b, node)
+            r = self.cmp1(ast.Is(), a, b, node)
+            return r.neg() if isinstance(r, Cond) else (not r)
         if name == 'In':
             if isinstance(b, (list, tuple, set)):
                 for x in b:
@@ -1277,7 +1288,7 @@ class Interp(object):
                     elif r:
                         return True
                 return False
-            if isinstance(b, dict):
+            if isinstance(b, dict) or type(b).__name__ in ('dict_keys', 'dict_values'):
                 return a in b
             if isinstance(b, str):
                 if not isinstance(a, str):
